@@ -258,9 +258,22 @@ func (fs *fileStorage) setMeta(fd FileDesc) error {
 			// Content not changed, do nothing.
 			return nil
 		}
-		if err := writeFileSynced(currentPath+".bak", b, 0644); err != nil {
-			fs.log(fmt.Sprintf("backup CURRENT: %v", err))
-			return err
+		// Back up only a usable CURRENT (well-formed and pointing to an
+		// existing file). Otherwise CURRENT.bak may hold the only usable
+		// pointer (GetMeta falls back to it), and replacing it by a corrupted
+		// or dangling one would leave nothing to recover from if we crash
+		// before the new CURRENT is durable.
+		var ofd FileDesc
+		usable := len(b) > 0 && b[len(b)-1] == '\n' && fsParseNamePtr(string(b[:len(b)-1]), &ofd)
+		if usable {
+			_, serr := os.Stat(filepath.Join(fs.path, fsGenName(ofd)))
+			usable = serr == nil
+		}
+		if usable {
+			if err := writeFileSynced(currentPath+".bak", b, 0644); err != nil {
+				fs.log(fmt.Sprintf("backup CURRENT: %v", err))
+				return err
+			}
 		}
 	} else if !os.IsNotExist(err) {
 		return err
